@@ -24,6 +24,7 @@ py_strip = z3.Function("py_strip", S, S)  # str.strip()
 py_lstrip = z3.Function("py_lstrip", S, S)
 py_rstrip = z3.Function("py_rstrip", S, S)
 py_isspace = z3.Function("py_isspace", S, B)
+py_repeat = z3.Function("py_repeat", S, I, S)  # s * n
 opaque_truthy = z3.Function("opaque_truthy", Opaque, B)
 opaque_is_none = z3.Function("opaque_is_none", Opaque, B)
 
@@ -149,6 +150,13 @@ class VPyFunc(V):
 class VBuiltin(V):
     def __init__(self, name):
         self.name = name
+
+
+class VSlice(V):
+    """slice(lo, hi) object; lo / hi are VInt or VNone"""
+
+    def __init__(self, lo, hi):
+        self.lo, self.hi = lo, hi
 
 
 class VSpecFn(V):
